@@ -18,7 +18,7 @@ RULE = ("Every PDAG with acyclic directed part on p<=4 nodes: pa/ch/neighbors/ad
         "PDAGs p<=7 (paths, separation), sparse PDAGs relabelled into 9..12 nodes, signed / path-cancelling DAG weight "
         "matrices. Oracles: edge-set definitions; bitset transitive closure over directed edges; recursive simple-path "
         "enumeration (compared as sets of tuples + equal count => each once); union-find for chain components. Non-trivial = "
-        "graph with both directed and undirected edges and >=2 distinct paths between some queried pair, or a negative weight.")
+        "graph with both directed and undirected edges and >=2 distinct paths between some queried pair, or a negative weight. Also: relabelling into 9..70 labels, further dtypes, tiny weights, in-place edit of the same array object between queries.")
 ASSUMPTIONS = [
     "graphs with directed cycles are outside the domain (the library's recursive functions do not terminate there)",
     "semi_directed_paths is not queried with fro == to (the trivial path is not part of the statement)",
